@@ -41,14 +41,18 @@ type c16Dest struct {
 	Tags                    []string
 	Ok                      bool
 	Score                   float64
+	Addr                    struct {
+		Street string
+		Zipx   int
+	}
 }
 
-var c16Keys = []string{"name", "email", "note", "city", "age", "count", "zip", "tags", "ok", "score"}
+var c16Keys = []string{"name", "email", "note", "city", "age", "count", "zip", "tags", "ok", "score", "addr"}
 
 // c16Cap sometimes writes a key with a capital first letter ("Name"): another key of the schema that happens to address the same Go
 // field as "name". Fields are keyed by their schema key; a union holds both.
 func c16Cap(r *rng.Rand, k string) string {
-	if r.Intn(4) == 0 && k != "tags" && k != "ok" && k != "score" {
+	if r.Intn(4) == 0 && k != "tags" && k != "ok" && k != "score" && k != "addr" {
 		return strings.ToUpper(k[:1]) + k[1:]
 	}
 	return k
@@ -80,6 +84,15 @@ func c16Child(key string, variant int) z.ZogSchema {
 		return z.Slice(z.String().Min(2)).Required()
 	case "ok":
 		return z.Bool().True()
+	case "addr":
+		// nested struct schemas with different fields: on a key conflict the later operand's schema replaces the earlier one as a whole
+		switch variant % 3 {
+		case 0:
+			return z.Struct(z.Schema{"street": z.String().Min(3)})
+		case 1:
+			return z.Struct(z.Schema{"street": z.String().Required(), "zipx": z.Int().GT(5)})
+		}
+		return z.Struct(z.Schema{"zipx": z.Int().Required()}).TestFunc(func(any, z.Ctx) bool { return false }, z.Message("addr rule"))
 	}
 	return z.Float64().GTE(0.5)
 }
@@ -126,8 +139,13 @@ func (h *c16Run) newTest() (int, z.Test) {
 func (h *c16Run) newPost() (int, z.PostTransform) {
 	id := h.nextID
 	h.nextID++
+	files := h.r.Intn(6) == 0
 	p := func(ptr any, ctx z.Ctx) error {
 		*h.calls = append(*h.calls, fmt.Sprintf("post%d(%T)", id, ptr))
+		if files {
+			// a transform that records an issue itself and returns nil: the transforms after it do not run
+			ctx.AddIssue(ctx.Issue().SetCode("noted").SetMessage(fmt.Sprintf("post %d noted a problem", id)))
+		}
 		return nil
 	}
 	h.posts[id] = p
@@ -218,11 +236,15 @@ func (h *c16Run) randomInput() (map[string]any, c16Dest) {
 			v := pick(0.1, 0.5, 2.5).(float64)
 			data[k] = v
 			d.Score = v
+		case "addr":
+			st, zp := pick("ab", "main street", "").(string), pick(0, 3, 70).(int)
+			data[k] = map[string]any{"street": st, "zipx": zp}
+			d.Addr.Street, d.Addr.Zipx = st, zp
 		}
 	}
 	// the capitalised spelling of a key carries the same value (both spellings fill the same Go field)
 	for _, k := range c16Keys {
-		if v, ok := data[k]; ok && k != "tags" && k != "ok" && k != "score" {
+		if v, ok := data[k]; ok && k != "tags" && k != "ok" && k != "score" && k != "addr" {
 			data[strings.ToUpper(k[:1])+k[1:]] = v
 		}
 	}
